@@ -104,7 +104,13 @@ def build(S, tier):
             atoms = AtomsFB(I, n)
             T, d = I.path.fresh("T"), I.path.fresh("delta")
             I.path.assume(z3.And(T.t > 0, d.t > 0))
-            mc = I.call(I.get_class(FB), [atoms, d], {"temperature": T, "seed": 1})
+            T_init, d_init = I.path.fresh("T_at_construction"), I.path.fresh("delta_at_construction")
+            I.path.assume(z3.And(T_init.t > 0, d_init.t > 0))
+            mc = I.call(I.get_class(FB), [atoms, d_init], {"temperature": T_init, "seed": 1})
+            # temperature and delta are public attributes (annealing / adaptive schedules change them between steps):
+            # the step must use the CURRENT values
+            I.setattr(mc, "temperature", T)
+            I.setattr(mc, "delta", d)
             pw = I.path.fresh("power")
             I.setattr(mc, "masses_scaling_power", pw)
             if delta_kind == "per-coordinate":
